@@ -33,6 +33,7 @@ int MPI_Comm_compare(MPI_Comm, MPI_Comm, int*); int MPI_Request_free(MPI_Request
 int MPI_Exscan(const void*,void*,int,MPI_Datatype,MPI_Op,MPI_Comm); int MPI_Scan(const void*,void*,int,MPI_Datatype,MPI_Op,MPI_Comm);
 int MPI_Bcast(void*,int,MPI_Datatype,int,MPI_Comm); int MPI_Barrier(MPI_Comm);
 int MPI_Send(const void*,int,MPI_Datatype,int,int,MPI_Comm); int MPI_Recv(void*,int,MPI_Datatype,int,int,MPI_Comm,MPI_Status*);
+int MPI_Sendrecv(const void*,int,MPI_Datatype,int,int,void*,int,MPI_Datatype,int,int,MPI_Comm,MPI_Status*);
 int MPI_Isend(const void*,int,MPI_Datatype,int,int,MPI_Comm,MPI_Request*); int MPI_Issend(const void*,int,MPI_Datatype,int,int,MPI_Comm,MPI_Request*);
 int MPI_Irecv(void*,int,MPI_Datatype,int,int,MPI_Comm,MPI_Request*);
 int MPI_Test(MPI_Request*,int*,MPI_Status*); int MPI_Waitsome(int,MPI_Request*,int*,int*,MPI_Status*);
